@@ -9,6 +9,13 @@ import os
 from dataclasses import dataclass, field
 
 
+def mangle(name, class_name):
+    """Python's private-name mangling: inside class C, `__x` (no trailing dunder) means `_C__x`"""
+    if class_name and name.startswith("__") and not name.endswith("__"):
+        return "_" + class_name.lstrip("_") + name
+    return name
+
+
 class AnalysisError(Exception):
     """Fail-closed: an anchor vanished or the code left the analysable fragment (exit 2)."""
 
@@ -45,6 +52,10 @@ class FunctionInfo:
     @property
     def vararg(self):
         return self.node.args.vararg.arg if self.node.args.vararg else None
+
+    @property
+    def kwarg(self):
+        return self.node.args.kwarg.arg if self.node.args.kwarg else None
 
     def defaults(self):
         a = self.node.args
@@ -254,7 +265,7 @@ class Program:
         if parent is not None:
             parent.nested[node.name] = fi
         elif cls is not None:
-            cls.methods[node.name] = fi
+            cls.methods[mangle(node.name, cls.name)] = fi
         else:
             m.functions[node.name] = fi
         for sub in _direct_defs(node):
@@ -283,9 +294,9 @@ class Program:
             elif isinstance(st, ast.AnnAssign) and isinstance(st.target, ast.Name):
                 ci.fields.append(st.target.id)
                 if st.value is not None:
-                    ci.class_attrs[st.target.id] = st.value
+                    ci.class_attrs[mangle(st.target.id, ci.name)] = st.value
             elif isinstance(st, ast.Assign) and len(st.targets) == 1 and isinstance(st.targets[0], ast.Name):
-                ci.class_attrs[st.targets[0].id] = st.value
+                ci.class_attrs[mangle(st.targets[0].id, ci.name)] = st.value
         return ci
 
     def _resolve_bases(self, c: ClassInfo):
